@@ -1,8 +1,12 @@
 #!/bin/bash
 # usage: try_mutant.sh <patch.diff> <Cxx> [extra verif args]   -- applies to /repo, runs the check, reverts
+# (the evidence file of the property is saved and restored: evidence describes the unchanged tree only)
 D=$1; P=$2; shift 2
+mkdir -p /tmp/w
 cd /repo && git apply --check "$D" || { echo "patch does not apply"; exit 2; }
 git apply "$D"
+[ -f /verif/evidence/$P.json ] && cp /verif/evidence/$P.json /tmp/w/evidence_$P.saved
 cd /verif && ./verif check $P "$@" > /tmp/w/mut_$P.log 2>&1; rc=$?
 git -C /repo checkout -- . ; git -C /repo status --short | head -3
+[ -f /tmp/w/evidence_$P.saved ] && mv /tmp/w/evidence_$P.saved /verif/evidence/$P.json
 echo "exit=$rc"; grep -E "^VIOLATION|^KNOWN|^HARNESS-ERROR|obligations=" /tmp/w/mut_$P.log | cut -c1-300 | head -12
